@@ -3396,6 +3396,10 @@ def main(repo, outdir):
     guard("TermListGen.v", lambda: gen_termlist(repo))
     import py2coq_printer  # generator for the string printer (serializer.py, to_str_list): translator/py2coq_printer.py
     guard("PrinterGen.v", lambda: py2coq_printer.gen_printer(repo))
+    from py2coq_poly import gen_poly              # generator for the LP / numpy functions: translator/py2coq_poly.py
+    guard("PolyGen.v", lambda: gen_poly(repo))
+    import py2coq_plots  # generator for the vertex routine of utils/plots.py (C18): translator/py2coq_plots.py
+    guard("PlotsGen.v", lambda: py2coq_plots.gen_plots(repo))
     changed = []
     for name, txt in res.items():
         p = os.path.join(outdir, name)
